@@ -20,6 +20,7 @@ type acc struct {
 	// soft: when non-empty, the next value difference found by roundTrip is recorded as information
 	// (the value has a shape the running system cannot produce; soft holds the reason)
 	soft string
+	hot  map[string]map[string]int64 // hot-path outcomes: target -> class -> hits (folded into outcomes by merge)
 }
 
 type viol struct {
@@ -71,6 +72,11 @@ func (a *acc) note(class, example string, size int) {
 
 func (a *acc) merge(o *acc) {
 	a.evals += o.evals
+	for t, m := range o.hot {
+		for c, n := range m {
+			a.outcomes[t+"/"+c] += n
+		}
+	}
 	for k, v := range o.counters {
 		a.counters[k] += v
 	}
